@@ -17,8 +17,8 @@ import (
 	authtypes "github.com/cosmos/cosmos-sdk/x/auth/types"
 	gogotypes "github.com/cosmos/gogoproto/types"
 	"github.com/ethereum/go-ethereum/common"
-	"github.com/ethereum/go-ethereum/crypto"
 	ethtypes "github.com/ethereum/go-ethereum/core/types"
+	"github.com/ethereum/go-ethereum/crypto"
 
 	"verif/harness/chain"
 	"verif/harness/drv"
@@ -65,6 +65,48 @@ type tokEnv struct {
 	record   bool
 	cfg      chain.M // effective driver configuration (recorded in the Init line)
 	nsSwap   bool    // random issues may use the swap target's min unit as a symbol
+	// EXACT SCALING (magnitude tier, technique a): every quantity of the IBC denoms
+	// — genesis balances, bank supply, the bound contract's ERC20 balances, the
+	// amounts of SwapToERC20 / SwapFromERC20 / hook events — is K times the model's
+	// and logged divided by K, so the unchanged Token.tla and every C10 clause judge
+	// the real conversions at magnitude K.  A value that K does not divide is logged
+	// floored and counted in `inexact` (clause C10_ScaleExact).
+	k sdkmath.Int
+}
+
+// scaling factors: single amounts (1..20 model units), their sums and the supplies
+// straddle 2^31, 2^32, 2^53, 2^63, 2^64 and 2^128; odd ones keep the low bits busy
+var kScales = []string{
+	"1", "1073741827" /* 2^30+3 */, "4503599627370497" /* 2^52+1 */, "2305843009213693953", /* 2^61+1 */
+	"4611686018427387904" /* 2^62 */, "3074457345618258603" /* (2^63-1)/3 */, "6148914691236517205", /* 2^64/3 */
+	"1000000000000000007" /* 10^18+7 */, "9223372036854775807" /* 2^63-1 */, "18446744073709551629", /* 2^64+13 */
+	"79228162514264337593543950343" /* 2^96+7 */, "85070591730234615865843651857942052869" /* 2^126+5 */}
+
+var kCounter int
+
+func pickK(spec string) sdkmath.Int {
+	if spec == "" {
+		return sdkmath.OneInt()
+	}
+	if spec == "auto" {
+		spec = kScales[kCounter%len(kScales)]
+		kCounter++
+	}
+	k, ok := sdkmath.NewIntFromString(spec)
+	if !ok || !k.IsPositive() {
+		panic("bad kscale " + spec)
+	}
+	return k
+}
+
+func isIbc(d string) bool { return strings.HasPrefix(d, "ibc/") }
+
+// real amount of `amt` model units of denom d
+func (e *tokEnv) realAmt(d string, amt int64) sdkmath.Int {
+	if isIbc(d) {
+		return e.k.MulRaw(amt)
+	}
+	return sdkmath.NewInt(amt)
 }
 
 func newTokEnv(fl *drv.Flags) *tokEnv {
@@ -84,6 +126,7 @@ func newTokEnv(fl *drv.Flags) *tokEnv {
 		e.users = append(e.users, evmledger.QuirkRevert, evmledger.QuirkShort, evmledger.QuirkNoKey)
 	}
 	e.minUnits = strings.Split(fl.CfgStr("minunits", "maa:mbb"), ":")
+	e.k = pickK(fl.CfgStr("kscale", ""))
 	initStake := fl.CfgInt("stake", 9)
 	baseFee := fl.CfgInt("basefee", 5)
 	taxNum := fl.CfgInt("taxnum", 2)
@@ -93,14 +136,14 @@ func newTokEnv(fl *drv.Flags) *tokEnv {
 		"taxnum": fmt.Sprint(taxNum), "taxden": fmt.Sprint(e.taxDen), "mintnum": fmt.Sprint(mintNum),
 		"mintden": fmt.Sprint(e.mintDen), "regin": fl.CfgStr("regin", ""), "regout": fl.CfgStr("regout", ""),
 		"regrn": fmt.Sprint(fl.CfgInt("regrn", 1)), "regrd": fmt.Sprint(fl.CfgInt("regrd", 1)),
-		"nsswap": fmt.Sprint(fl.CfgInt("nsswap", 1)), "ibc": fmt.Sprint(fl.CfgInt("ibc", 0))}
+		"nsswap": fmt.Sprint(fl.CfgInt("nsswap", 1)), "ibc": fmt.Sprint(fl.CfgInt("ibc", 0)), "kscale": e.k.String()}
 	accts := map[string]string{}
 	initIbc := fl.CfgInt("ibc", 0)
 	for _, u := range e.users {
 		accts[u] = fmt.Sprintf("%d%s", initStake, stake)
 		for _, d := range e.minUnits {
 			if strings.HasPrefix(d, "ibc/") && initIbc > 0 {
-				accts[u] += fmt.Sprintf(",%d%s", initIbc, d)
+				accts[u] += fmt.Sprintf(",%s%s", e.k.MulRaw(initIbc), d)
 			}
 		}
 	}
@@ -240,10 +283,24 @@ func (e *tokEnv) project(ctx sdk.Context) any {
 		}
 		return int64(u)
 	}
+	// quantities of the IBC denoms are K times the model's (exact scaling)
+	smk := func(d string, i sdkmath.Int) int64 {
+		if isIbc(d) {
+			if !i.Mod(e.k).IsZero() {
+				inexact++
+			}
+			i = i.Quo(e.k)
+		}
+		return sm(i)
+	}
+	denomOf := map[string]string{} // contract hex -> min unit
 	tok := chain.M{}
 	native := ""
 	for _, ti := range k.GetTokens(ctx, nil) {
 		t := ti.(*v1.Token)
+		if t.Contract != "" {
+			denomOf[common.HexToAddress(t.Contract).Hex()] = t.MinUnit
+		}
 		if t.Symbol == stake {
 			native = e.contractName(t.Contract)
 			continue
@@ -291,13 +348,13 @@ func (e *tokEnv) project(ctx sdk.Context) any {
 	for _, a := range e.accounts() {
 		row := chain.M{}
 		for _, d := range e.denoms() {
-			row[d] = sm(e.balOf(ctx, a, d))
+			row[d] = smk(d, e.balOf(ctx, a, d))
 		}
 		bal[a] = row
 	}
 	supply := chain.M{}
 	for _, d := range e.denoms() {
-		supply[d] = sm(c.Supply(ctx, d).Sub(e.off[d]))
+		supply[d] = smk(d, c.Supply(ctx, d).Sub(e.off[d]))
 	}
 	// any token whose min unit is outside the tracked universe cannot be shown
 	for mu := range byMin {
@@ -337,7 +394,7 @@ func (e *tokEnv) project(ctx sdk.Context) any {
 			if v == nil {
 				v = new(big.Int)
 			}
-			row[n] = sm(sdkmath.NewIntFromBigInt(v))
+			row[n] = smk(denomOf[ca.Hex()], sdkmath.NewIntFromBigInt(v))
 		}
 		for a := range balances[ca] {
 			if !known[a] {
@@ -410,8 +467,8 @@ func norm(ev chain.M) chain.M {
 	return o
 }
 
-func coin(denom string, amt int64) sdk.Coin {
-	return sdk.Coin{Denom: denom, Amount: sdkmath.NewInt(amt)}
+func (e *tokEnv) coin(denom string, amt int64) sdk.Coin {
+	return sdk.Coin{Denom: denom, Amount: e.realAmt(denom, amt)}
 }
 
 // msgOf maps an abstract event to a signed-transaction message; nil for events
@@ -442,19 +499,19 @@ func (e *tokEnv) msgOf(ev chain.M) sdk.Msg {
 	case "TransferOwner":
 		return &v1.MsgTransferTokenOwner{SrcOwner: addr, DstOwner: bech(chain.Str(ev, "to")), Symbol: chain.Str(ev, "sym")}
 	case "Mint":
-		return &v1.MsgMintToken{Coin: coin(chain.Str(ev, "mu"), chain.Num(ev, "amt")), Receiver: bech(chain.Str(ev, "to")), Owner: addr}
+		return &v1.MsgMintToken{Coin: e.coin(chain.Str(ev, "mu"), chain.Num(ev, "amt")), Receiver: bech(chain.Str(ev, "to")), Owner: addr}
 	case "Burn":
-		return &v1.MsgBurnToken{Coin: coin(chain.Str(ev, "mu"), chain.Num(ev, "amt")), Sender: addr}
+		return &v1.MsgBurnToken{Coin: e.coin(chain.Str(ev, "mu"), chain.Num(ev, "amt")), Sender: addr}
 	case "SwapFee":
-		return &v1.MsgSwapFeeToken{FeePaid: coin(chain.Str(ev, "mu"), chain.Num(ev, "amt")), Receiver: bech(chain.Str(ev, "to")), Sender: addr}
+		return &v1.MsgSwapFeeToken{FeePaid: e.coin(chain.Str(ev, "mu"), chain.Num(ev, "amt")), Receiver: bech(chain.Str(ev, "to")), Sender: addr}
 	case "ToERC20":
 		recv := chain.Str(ev, "to")
 		if a, ok := e.ethOf(recv); ok {
 			recv = a.Hex()
 		}
-		return &v1.MsgSwapToERC20{Amount: coin(chain.Str(ev, "mu"), chain.Num(ev, "amt")), Sender: addr, Receiver: recv}
+		return &v1.MsgSwapToERC20{Amount: e.coin(chain.Str(ev, "mu"), chain.Num(ev, "amt")), Sender: addr, Receiver: recv}
 	case "FromERC20":
-		return &v1.MsgSwapFromERC20{WantedAmount: coin(chain.Str(ev, "mu"), chain.Num(ev, "amt")), Sender: addr, Receiver: bech(chain.Str(ev, "to"))}
+		return &v1.MsgSwapFromERC20{WantedAmount: e.coin(chain.Str(ev, "mu"), chain.Num(ev, "amt")), Sender: addr, Receiver: bech(chain.Str(ev, "to"))}
 	}
 	return nil
 }
@@ -667,7 +724,7 @@ func (e *tokEnv) hook(ev chain.M) (ok, panicked bool) {
 			ok, panicked = false, true
 		}
 	}()
-	msg, err := evmledger.SwapToNativeCall(from, common.HexToAddress(contract), to, big.NewInt(chain.Num(ev, "amt")))
+	msg, err := evmledger.SwapToNativeCall(from, common.HexToAddress(contract), to, e.realAmt(chain.Str(ev, "mu"), chain.Num(ev, "amt")).BigInt())
 	if err != nil {
 		return false, false
 	}
@@ -870,6 +927,7 @@ func (e *tokEnv) exec(beh []chain.M, w *chain.TraceWriter) {
 func tokenDriver(mode string, fl *drv.Flags) error {
 	w := chain.NewTraceWriter(fl.Out)
 	defer w.Close()
+	kCounter = int(fl.Seed) // kscale=auto cycles through kScales from a seed-dependent start
 	switch mode {
 	case "replay":
 		for _, beh := range chain.ReadBehaviours(fl.In) {
@@ -924,6 +982,7 @@ func tokRandom(fl *drv.Flags, rng *rand.Rand, w *chain.TraceWriter) {
 	set("quirks", "1")
 	set("minunits", "maa:mbb:mcc:ibc/x1")
 	set("ibc", "20")
+	set("kscale", "auto")
 	set("stake", "400")
 	set("basefee", pick(rng, []string{"60", "7", "100", "1"}))
 	td := pick(rng, []int64{5, 10, 100, 4})
@@ -1024,7 +1083,7 @@ func (e *tokEnv) randomEvent(rng *rand.Rand, normal []string) chain.M {
 	}
 	if len(shared) > 0 && rng.Intn(6) == 0 {
 		name := pick(rng, shared)
-		a := tok[name].(chain.M)                  // symbol = name
+		a := tok[name].(chain.M)                 // symbol = name
 		b := tok[byMin[name].(string)].(chain.M) // min unit = name
 		// signers must be user accounts (a token may be owned by the module account)
 		aOwner, bOwner := ownerOr(a, 100), ownerOr(b, 100)
